@@ -233,7 +233,7 @@ def boundary_paths(rng):
     return out
 
 
-def normal_incidence_paths(rng, count):
+def normal_incidence_paths(rng, count, near=False):
     """random orthonormal frames, legs numerically parallel to the local normal (theta = 0 or pi): the polar angle
     arccos(z / r) sits at the end of arccos' domain, where a radius that is one ulp short gives NaN"""
     import arim
@@ -247,7 +247,15 @@ def normal_incidence_paths(rng, count):
         frames = np.stack([fixtures.rot3(rng).T for _ in range(n)])
         pa = rng.normal(size=(n, 3)) * 1e-2
         sign = rng.choice([-1.0, 1.0], size=n)
-        pb = pa + (sign * rng.uniform(1e-3, 5e-2, size=n))[:, None] * frames[:, 2, :]
+        direction = sign[:, None] * frames[:, 2, :]
+        if near:
+            # a small but non-zero angle to the normal (1e-5 .. 8e-3 rad: a target almost under the element): the polar angle is
+            # that angle, not 0 or pi
+            eps = 10.0 ** rng.uniform(-5, np.log10(8e-3), size=n)
+            phi = rng.uniform(-np.pi, np.pi, size=n)
+            lateral = np.cos(phi)[:, None] * frames[:, 0, :] + np.sin(phi)[:, None] * frames[:, 1, :]
+            direction = np.cos(eps)[:, None] * direction + np.sin(eps)[:, None] * lateral
+        pb = pa + rng.uniform(1e-3, 5e-2, size=n)[:, None] * direction
         a, b = g.Points(pa, "A"), g.Points(pb, "B")
         ia = arim.Interface(a, g.Points(frames.copy(), "OA"), are_normals_on_out_rays_side=bool(rng.integers(0, 2)))
         ib = arim.Interface(b, g.Points(frames.copy(), "OB"), are_normals_on_inc_rays_side=bool(rng.integers(0, 2)))
@@ -353,6 +361,9 @@ def run(ctx):
     for p in normal_incidence_paths(rng, 12 * ctx.scale):
         jobs.append((p, False))
         ctx.count("normal_incidence_random_frames")
+    for p in normal_incidence_paths(rng, 12 * ctx.scale, near=True):
+        jobs.append((p, False))
+        ctx.count("near_normal_incidence_random_frames")
     lines, meta = [], []
     for path, boundary in jobs:
         rg = ray.RayGeometry.from_path(path)
